@@ -41,6 +41,8 @@ def reader_segmentations(tier, seed):
             for _ in range(n):
                 cuts.append([rnd.randint(1, 40) for _ in range(8)])
             for chunks in cuts:
+                if len(fails) >= 8:
+                    break  # enough witnesses; a reader waiting for bytes that never come costs 2 s per case
                 got = run_reader_native(stream, size, chunks)
                 evals += 1
                 distinct.add((size, m[:24], len(m), tuple(chunks)))
